@@ -418,3 +418,26 @@ contract(
     props=("C18",), domain="skip",
     canaries=[("homozygous_alt_kept", "(zygosity != 0.0) & (zygosity != 1.0)", "(zygosity != 0.0)")],
 )
+
+
+# ----------------------------------------------------------------------------- deductive: TumorBoost
+contract(
+    "cnvlib/vary.py::_tumor_boost",
+    params=dict(t_freqs=VecT(Real), n_freqs=VecT(Real)),
+    returns=VecT(NReal, kind="series"),
+    requires=["len(t_freqs) == len(n_freqs)",
+              # no division by zero: a normal frequency of 0 never exceeds the tumour's, one of 1 always does or equals it
+              "forall(0, len(t_freqs), lambda k: 0 <= t_freqs[k] and t_freqs[k] <= 1 and 0 <= n_freqs[k] and n_freqs[k] <= 1 and "
+              "not (t_freqs[k] == 1 and n_freqs[k] == 1))"],
+    ensures=[
+        ("same_length", "len(result) == len(t_freqs)"),
+        ("formula", "forall(0, len(result), lambda k: not isnull(result[k]) and val(result[k]) == ite(t_freqs[k] < n_freqs[k], "
+                    "0.5 * t_freqs[k] / n_freqs[k], 1 - 0.5 * (1 - t_freqs[k]) / (1 - n_freqs[k])))"),
+    ],
+    props=("C18",), domain="skip",
+    canaries=[("branches_swapped", "lt_mask = t_freqs < n_freqs", "lt_mask = t_freqs > n_freqs"),
+              ("half_dropped", "out[lt_idx] = 0.5 * t_freqs.take(lt_idx) / n_freqs.take(lt_idx)", "out[lt_idx] = t_freqs.take(lt_idx) / n_freqs.take(lt_idx)"),
+              ("normal_not_complemented", "(1 - n_freqs.take(gt_idx))", "n_freqs.take(gt_idx)")],
+    notes="TumorBoost: every site gets the formula of its own branch (np.nonzero / take / scatter store modelled as: the True "
+          "positions in order, the elements at listed positions, values[r] written to the r-th True position); real arithmetic",
+)
